@@ -294,6 +294,7 @@ Section Honest.
 
   (* the closing AddBlock of verify (blockchain.go:358-363) *)
   Lemma verify_tail_ok (sh : cstate) (l : block) (u' : ureg) (neigh : list block) :
+    (0 < s_interval S)%Z ->
     last_block (chain sh) = Some l ->
     update_utxos (ur sh) (txs l) (b_ts l) = Ok u' ->
     match last_block (chain sh) with
@@ -305,8 +306,25 @@ Section Honest.
       end
     end = Ok neigh.
   Proof.
-    intros Hl Hu. rewrite Hl. unfold add_block.
+    intros Hint Hl Hu. rewrite Hl.
+    rewrite (add_block_raw_eq H sh (b_ts l + s_interval S)%Z None [])
+      by (right; unfold last_block_ts; rewrite Hl; lia).
     rewrite (add_block_raw_tip sh l _ u' Hl Hu). reflexivity.
+  Qed.
+
+  (* a block produced one interval after a tip: the interval is positive, since AddBlock has
+     accepted the block (it is dated after the tip) *)
+  Lemma produced_interval_pos (n : node) (ts : Z) (perm : list nat) (n' : node)
+        (d : list (string * drop)) (old : list block) (tip : block) :
+    VALIDATE n ts perm = (n', Produced d) ->
+    chain (n_c n) = old ++ [tip] ->
+    ts = (b_ts tip + s_interval S)%Z ->
+    (0 < s_interval S)%Z.
+  Proof.
+    intros Hv Hch Hts.
+    assert (Hne : chain (n_c n) <> []) by (rewrite Hch; destruct old; discriminate).
+    pose proof (validate_produced_after_tip _ _ _ _ _ _ _ _ _ _ _ _ Hv Hne) as Hlt.
+    unfold last_block_ts in Hlt. rewrite Hch, last_block_snoc in Hlt. lia.
   Qed.
 
   Lemma verify_loop_app (lh : list block) (now : Z) : forall (l1 l2 : list block) (i : nat) (sh : cstate)
@@ -368,7 +386,8 @@ Section Honest.
     rewrite (verify_step_new_succ [tip] now 0 sh1 tip b Hprev eq_refl Hvb).
     assert (Hl1 : last_block (chain sh1) = Some tip) by apply last_block_snoc.
     rewrite (add_block_raw_tip sh1 tip b (ur (n_c n')) Hl1 E0).
-    apply (verify_tail_ok _ b u1); [apply last_block_snoc|exact Hrep].
+    apply (verify_tail_ok _ b u1);
+      [exact (produced_interval_pos _ _ _ _ _ _ _ Hv Hch Hts)|apply last_block_snoc|exact Hrep].
   Qed.
 
   Theorem extension_confirmed_only (n : node) (ts : Z) (perm : list nat) (n' : node)
@@ -460,7 +479,8 @@ Section Honest.
     unfold verify. cbv beta iota. rewrite Hpl, Hprev, hash_eqb_refl. cbn [negb].
     fold sh0. cbn [verify_loop]. rewrite Hlb.
     rewrite (verify_step_new_0 [b'] now sh0 tip b b' Hprev eq_refl Hne Hvb).
-    apply (verify_tail_ok _ b u1); [apply last_block_snoc|].
+    apply (verify_tail_ok _ b u1);
+      [exact (produced_interval_pos _ _ _ _ _ _ _ Hv Hch' Hts)|apply last_block_snoc|].
     cbn [ur]. unfold sh0. cbn [ur]. rewrite Hpu. exact Hrep.
   Qed.
 
@@ -540,7 +560,8 @@ Section Honest.
     assert (Hl1 : last_block (chain sh1) = Some tip) by (rewrite Hc1; apply last_block_snoc).
     assert (E0' : update_utxos (ur sh1) (txs tip) (b_ts tip) = Ok (ur (n_c n'))) by (rewrite <- Eu; exact E0).
     rewrite (add_block_raw_tip sh1 tip b (ur (n_c n')) Hl1 E0').
-    apply (verify_tail_ok _ b u1); [apply last_block_snoc|exact Hrep].
+    apply (verify_tail_ok _ b u1);
+      [exact (produced_interval_pos _ _ _ _ _ _ _ Hv Hch Hts)|apply last_block_snoc|exact Hrep].
   Qed.
 
   Theorem full_resync_reachable (n : node) (ts : Z) (perm : list nat) (n' : node)
